@@ -1,5 +1,6 @@
 """Per-harness environment stubs (selected by name in the job options)."""
 import z3
+from fractions import Fraction
 from vals import *
 from ops import *
 from mem import *
@@ -27,6 +28,31 @@ def prepare(ex, st, opts):
 
 def post_obligations(ex, opts):
     return []
+
+
+def fix_record(ex, model, rec):
+    """make a replay record consistent with summaries used symbolically: a summarised ThresholdQ value below / not
+    below 0.0001 is realised natively by an all-zero / evenly spread column of Q-values"""
+    tab = getattr(ex, 'tq_table', None)
+    if not tab or model is None:
+        return rec
+    idx = {}
+    pos = 0
+    for kind, v in ex.inputs:
+        if kind == 'float':
+            idx[v.get_id()] = pos
+        pos += 1
+    for key, var in tab.items():
+        val = model.eval(var, model_completion=True)
+        try:
+            low = val.as_fraction() < Fraction(1, 10000)
+        except Exception:
+            low = False
+        n = len(key)
+        for k, cid in enumerate(key):
+            if cid in idx:
+                rec['inputs'][idx[cid]]['f'] = 0.0 if low else (k + 0.5) / n
+    return rec
 
 
 # ---------------------------------------------------------------------------------------------
@@ -139,7 +165,7 @@ def wf_readfull(ex, fr, st, args, ins):
         raise Unsupported('io.ReadFull on %r' % (r,))
     sp = r.val
     fields = ex.load(st, sp, r.typ[1:])
-    pos, reads, failAt, failErr, maxChunk = fields
+    pos, reads, failAt, failErr, maxChunk = fields[:5]
     n = buf.len
     if not (isinstance(failAt, int) and failAt < 0):
         h = ex.intr.get('#readfull_faulty')
@@ -211,3 +237,77 @@ def tq_summary(ex, fr, st, args, ins):
 @stubset('tq_summary')
 def _tq():
     return {DP + '.ThresholdQ': tq_summary, DP + '.specThresholdQ': tq_summary}
+
+
+# ---------------------------------------------------------------------------------------------
+# single-shot detection: symbolic buffer length, poker summarised as a function of (stream kind, start, length, m)
+
+def _poker_uf(ex):
+    f = ex.__dict__.get('poker_uf')
+    if f is None:
+        bv = z3.BitVecSort(64)
+        f = z3.Function('poker', bv, bv, bv, bv, z3.RealSort())
+        ex.poker_uf = f
+    return f
+
+
+def sd_makeslice_sym(ex, fr, st, n, c, ins):
+    """make([]byte, n) with symbolic n: contents are never indexed by the code under test here"""
+    neg = int_cmp('<', n, 0, 64, True)
+    if neg is not False:
+        ex.oblige('panic', st, neg, 'makeslice: len out of range', ins.get('pos', ''))
+        if neg is True:
+            raise __import__('core').PathDead()
+        st.pc = st.pc + (b_not(neg),)
+    oid = ex.new_obj(st, StreamBlock(-1, n, fresh=False))
+    ex.alloc_epoch[oid] = ex.nobj
+    return Slice(oid, (), 0, n, n)
+
+
+def sd_readfull(ex, fr, st, args, ins):
+    r, buf = args
+    sp = r.val
+    fields = ex.load(st, sp, r.typ[1:])
+    pos, reads, failAt, failErr, maxChunk, kind = fields
+    n = buf.len
+    if not (isinstance(failAt, int) and failAt < 0):
+        raise Unsupported('ReadFull on a failing stream (single detect stub)')
+    blk = StreamBlock(pos, n)
+    blk_kind[id(blk)] = kind
+    ex.__dict__.setdefault('blk_keep', []).append(blk)
+    st.heap[buf.obj] = blk
+    # io.ReadFull with an empty buffer returns (0, nil) without calling Read
+    isz = int_cmp('==', n, 0, 64, True)
+    ex.store(st, Ptr(sp.obj, sp.path + (0,)), int_binop('+', pos, n, 64, True))
+    ex.store(st, Ptr(sp.obj, sp.path + (1,)), int_ite(isz, reads, int_binop('+', reads, 1, 64, True), 64))
+    return (n, None)
+
+
+blk_kind = {}
+
+
+def sd_poker_bytes(ex, fr, st, args, ins):
+    data, m = args
+    blk = st.heap.get(data.obj)
+    if not isinstance(blk, StreamBlock):
+        raise Unsupported('poker stub: buffer was not filled by ReadFull')
+    kind = blk_kind.get(id(blk), 0)
+    f = _poker_uf(ex)
+    p = f(tobv(kind, 64), tobv(blk.start, 64), tobv(data.len, 64), tobv(m, 64))
+    ex.log.append((st.pc, 'PokerTestBytes', (kind, blk.start, data.len, m)))
+    return (FReal(p), FReal(p))
+
+
+def sd_poker_expect(ex, fr, st, args, ins):
+    kind, n, m = args
+    f = _poker_uf(ex)
+    return FReal(f(tobv(kind, 64), z3.BitVecVal(0, 64), tobv(n, 64), tobv(m, 64)))
+
+
+@stubset('single')
+def _single():
+    from intr import RP
+    return {
+        '#makeslice_sym': sd_makeslice_sym, 'io.ReadFull': sd_readfull,
+        RP + '.PokerTestBytes': sd_poker_bytes, '#vPokerExpect': sd_poker_expect,
+    }
